@@ -128,6 +128,8 @@ def generate(seed, tier):
             ops.append(["refill", rw.randrange(2 ** 31), rw.choice(["noise", "randwalk", "sine+noise"])])
         elif r < 0.66:
             ops.append(["wrapper", rw.choice(["compute_spectrum", "lpsd"])]); nres += 1
+        elif r < 0.70 and world == "numpy" and not bigplan:
+            ops.append(["concurrent", rw.randrange(2 ** 31)]); ncomp += 1; nres += 1
         elif r < 0.72 and fault_window:
             # fault injection: the user's window callable fails on its k-th next call, inside whatever operation follows
             ops.append(["arm_fault", rw.choice([1, 1, 2, 3])])
@@ -348,6 +350,24 @@ def execute(sc, out):
                             out.count("single_bin_between_computes" if ncompute > 1 else "compute_after_single")
                         if cfg.get("force_target_nf"):
                             out.count("forced_nf")
+                    elif kind == "concurrent":
+                        # this analyzer's compute() interleaved with an independent caller analysing another record
+                        rec2 = SC.make_record(dict(sc["data"], rng=op[1], recipe="noise"))
+                        an2 = SC.build_analyzer(rec2, dict(cfg, band=None, force_target_nf=False))
+                        try:
+                            an2.plan()
+                        except Exception:
+                            continue
+                        r, _r2 = W.run_concurrently(sess.ctx, [an.compute, an2.compute])
+                        ncompute += 1
+                        eraw, evals = baseline_for_now()
+                        raw = SS.raw_fields(r)
+                        d = SS.diff_fields(raw, eraw, SS.RAW_CMP)
+                        if d is not None:
+                            out.violate("compute_differs_from_baseline", f"world={world} field={d}",
+                                        f"compute() interleaved with an independent caller's compute() on another record differs from the fresh serial baseline in {d}")
+                        results.append(("compute", r, eraw, evals))
+                        out.count("two_concurrent_callers")
                     elif kind == "wrapper":
                         import speckit as _sk
 
